@@ -54,12 +54,36 @@ Definition cat' (a b : rx) : rx :=
   | Eps, _ => b
   | _, _ => Cat a b
   end.
-Definition alt' (a b : rx) : rx :=
+(* structural equality, and "x is one of the alternatives a already offers" *)
+Fixpoint ranges_eqb (a b : list (N * N)) : bool :=
   match a, b with
-  | Emp, _ => b
-  | _, Emp => a
-  | _, _ => Alt a b
+  | [], [] => true
+  | (x1, y1) :: r, (x2, y2) :: s => N.eqb x1 x2 && N.eqb y1 y2 && ranges_eqb r s
+  | _, _ => false
   end.
+Fixpoint rx_eqb (a b : rx) : bool :=
+  match a, b with
+  | Emp, Emp | Eps, Eps | Dot, Dot => true
+  | Chr c, Chr d => N.eqb c d
+  | Cls n rs, Cls m ss => Bool.eqb n m && ranges_eqb rs ss
+  | Cat a1 a2, Cat b1 b2 | Alt a1 a2, Alt b1 b2 => rx_eqb a1 b1 && rx_eqb a2 b2
+  | Star x, Star y | Plus x, Plus y | Opt x, Opt y => rx_eqb x y
+  | _, _ => false
+  end.
+Fixpoint alt_mem (x a : rx) : bool :=
+  match a with
+  | Alt l r => alt_mem x l || alt_mem x r
+  | _ => rx_eqb x a
+  end.
+(* alternatives are kept as a duplicate-free left-nested list (associativity and idempotence of |): an alternative
+   that is already there is not added again, which keeps the derivatives of nested repetitions from doubling *)
+Fixpoint alt_add (a b : rx) : rx :=
+  match b with
+  | Alt l r => alt_add (alt_add a l) r
+  | Emp => a
+  | _ => if alt_mem b a then a else match a with Emp => b | _ => Alt a b end
+  end.
+Definition alt' (a b : rx) : rx := alt_add a b.
 
 Fixpoint deriv (c : N) (r : rx) : rx :=
   match r with
